@@ -64,7 +64,7 @@ def budget(tier):
 
 def _gen(g):
     n = g.int(1, 6)
-    calls = [{"abandon": g.chance(35), "mode": g.weighted([(75, "value"), (25, "raise")]),
+    calls = [{"abandon": g.chance(35), "mode": g.weighted([(65, "value"), (22, "raise"), (13, "retexc")]),
               "cb": g.weighted([(60, None), (20, "run_sync"), (20, "run")]), "cc": g.chance(35),
               "nest": g.chance(40), "shielded": g.chance(30)} for _ in range(n)]
     if g.chance(12):
@@ -167,6 +167,10 @@ def run_once(case, out, stats):
                 e = Boom(i)
                 st["exc"][i] = e
                 raise e
+            if spec["mode"] == "retexc":
+                # an exception INSTANCE as the return value: it must come back as a value, not be raised
+                e = st["exc"][i] = [Boom(i), asyncio.CancelledError(), StopIteration(7), KeyError(i)][i % 4]
+                return e
             return ("v", i)
         finally:
             with lock:
@@ -367,7 +371,14 @@ def run_once(case, out, stats):
                 elif not (isinstance(r, tuple) and r[:2] == ("loop", i) and r[2] == loop_ident):
                     out.bad("from-thread-callback-wrong", spec["cb"], f"call {i}: {r!r}")
             kind = o[0]
-            if kind == "value":
+            if kind == "value" and spec["mode"] == "retexc":
+                if o[1] is not st["exc"].get(i):
+                    out.bad("wrong-result", "returned-exception-object", f"call {i}: {o[1]!r}")
+                if not o[3]:
+                    out.bad("returned-before-function-finished", "", f"call {i} returned while its gate was still closed")
+            elif kind == "raised" and spec["mode"] == "retexc":
+                out.bad("wrong-result", "returned-exception-object-was-raised", f"call {i}: {o[1]!r}")
+            elif kind == "value":
                 if o[1] != ("v", i) or spec["mode"] == "raise":
                     out.bad("wrong-result", "value", f"call {i}: {o[1]!r}")
                 if not o[3]:
